@@ -1,10 +1,22 @@
 #!/usr/bin/env python3
 """append the cfg(kani) hook lines listed in /verif/hooks.txt to the files of a dnp3 checkout (default /repo) when missing.
-hooks.txt line:  <source file relative to repo>  <harness file under /verif/harness>  [<module name>]  [pub]"""
+hooks.txt line:  <source file relative to repo>  <harness file under /verif/harness>  [<module name>]  [pub]
+          or:  RAW <source file> <text to append; " ;; " = newline>"""
 import sys, os
 repo = sys.argv[1] if len(sys.argv) > 1 else "/repo"
 here = os.path.dirname(os.path.dirname(os.path.abspath(__file__)))
 for line in open(os.path.join(here, "hooks.txt")):
+    if line.startswith("RAW "):
+        _, src, text = line.rstrip("\n").split(" ", 2)
+        p = os.path.join(repo, src)
+        s = open(p).read()
+        if text in s:
+            continue
+        if not s.endswith("\n"):
+            s += "\n"
+        open(p, "w").write(s + "\n" + text.replace(" ;; ", "\n") + "\n")
+        print("hooked (raw)", src)
+        continue
     line = line.split("#")[0].split()
     if not line:
         continue
